@@ -91,7 +91,9 @@ def _run_worker(fn_bytes, arg_bytes_seq):
                 arg_bytes_seq = []
             for ab in arg_bytes_seq:
                 try:
-                    res = fn(pickle.loads(ab))
+                    # the real pool maps the callable over a chunk (here: of one task) with list(map(...)); a
+                    # StopIteration escaping the callable therefore ENDS the chunk instead of being reported
+                    res = list(map(fn, [pickle.loads(ab)]))
                     try:
                         out.append(('ok', pickle.dumps(res)))
                     except BaseException as e:  # noqa
@@ -186,26 +188,24 @@ class SchedPool:
                 res[t] = r
         return res, completion
 
-    @staticmethod
-    def _deliver(r):
-        kind, blob = r
-        obj = pickle.loads(blob)
-        if kind == 'err':
-            raise obj
-        return obj
-
     def imap_unordered(self, fn, iterable, chunksize=1):
         res, completion = self._results(fn, iterable, 'imap_unordered')
-        for t in completion:
-            yield self._deliver(res[t])
+        return _ResultIterator([res[t] for t in completion])
 
     def imap(self, fn, iterable, chunksize=1):
         res, completion = self._results(fn, iterable, 'imap')
-        for t in range(len(res)):
-            yield self._deliver(res[t])
+        return _ResultIterator([res[t] for t in range(len(res))])
 
     def map(self, fn, iterable, chunksize=None):
-        return list(self.imap(fn, iterable))
+        res, completion = self._results(fn, iterable, 'map')
+        out = []
+        for t in range(len(res)):
+            kind, blob = res[t]
+            obj = pickle.loads(blob)
+            if kind == 'err':
+                raise obj
+            out.extend(obj)
+        return out
 
     def map_async(self, fn, iterable, chunksize=None, callback=None, error_callback=None):
         pool = self
@@ -223,6 +223,31 @@ class SchedPool:
 
     def apply_async(self, fn, args=(), kwds=None, callback=None, error_callback=None):
         raise NotImplementedError('SchedPool models imap / imap_unordered / map only')
+
+
+class _ResultIterator:
+    """Like multiprocessing's IMapIterator: a plain iterator object (not a generator), so an exception shipped back
+    from a worker is raised from __next__ exactly as the real pool does it."""
+
+    def __init__(self, chunks):
+        self.chunks = list(chunks)
+        self.pending = []
+
+    def __iter__(self):
+        return self
+
+    def __next__(self):
+        while not self.pending:
+            if not self.chunks:
+                raise StopIteration
+            kind, blob = self.chunks.pop(0)
+            obj = pickle.loads(blob)
+            if kind == 'err':
+                raise obj
+            self.pending = list(obj)          # the chunk's results (none if the callable raised StopIteration)
+        return self.pending.pop(0)
+
+    next = __next__
 
 
 def install(batching_module, outcome, cache, log=None):
